@@ -97,7 +97,15 @@ def hex_format_width(node, env=None):
         if isinstance(a, ast.BinOp) and isinstance(a.op, ast.Mod) and isinstance(const(a.left), str):
             s = const(a.left)
             if s.startswith("%0") and s.endswith("x") and s[2:-1].isdigit() and int(s[2:-1]) % 2 == 0:
-                return int(s[2:-1]) // 2, a.right
+                r = a.right
+                if isinstance(r, ast.Tuple) and len(r.elts) == 1:
+                    r = r.elts[0]
+                return int(s[2:-1]) // 2, r
+            if s == "%0*x" and isinstance(a.right, ast.Tuple) and len(a.right.elts) == 2:
+                # width given as an argument: "%0*x" % (W, X)
+                w = eval_int(a.right.elts[0], env)
+                if w is not None and w % 2 == 0:
+                    return w // 2, a.right.elts[1]
     return None
 
 
